@@ -1,8 +1,103 @@
 (** Property C18 — `goht generate` writes exactly the up-to-date outputs and touches nothing else.
-    OBLIGATIONS: C18_nonvacuous *)
-From GV Require Import Compiler.Compile.
+    Theorems are about Cli/Generate.v: the command over an abstract file system (finite map path -> content,
+    mtime), for every tree without duplicate paths, every flag set, every compiler+formatter [compile], every time
+    [now], and every order in which the worker pool finishes the queue.
+    OBLIGATIONS: C18_stale_template_written C18_up_to_date_untouched C18_failing_template_untouched
+      C18_only_outputs_change C18_skipped_directories_untouched C18_orphan_removed C18_keep_keeps_orphans
+      C18_schedule_independent C18_nonvacuous *)
+From GV Require Import Cli.Generate Proofs.ProxyProofs Proofs.GenerateProofs.
+From Coq Require Import Sorting.Permutation.
 
+Section C18.
+Variable compile : bytes -> option bytes.
+Variable now : Z.
+Variable fl : flags.
+Variable fs : fsys.
+Hypothesis paths_unique : NoDup (map fst fs).
+
+Let in_fs := queue_in_fs fl fs paths_unique.
+Let tmpl := queue_templates fl fs.
+
+Theorem C18_stale_template_written : forall t f c,
+  lookup t fs = Some f -> stale fl fs t f = true -> compile (f_content f) = Some c ->
+  lookup (output_of t) (goht_generate compile now fl fs) = Some (mkFile c now).
+Proof.
+  intros t f c Ht Hs Hc. unfold goht_generate. apply (written compile now fl fs (queue fl fs) in_fs t f c); [|exact Hc].
+  unfold queue. apply filter_In. split; [apply lookup_in; exact Ht|exact Hs].
+Qed.
+
+Theorem C18_up_to_date_untouched : forall t f,
+  lookup t fs = Some f -> stale fl fs t f = false ->
+  lookup (output_of t) (goht_generate compile now fl fs) = lookup (output_of t) fs.
+Proof.
+  intros t f Ht Hs. unfold goht_generate. apply (output_untouched compile now fl fs (queue fl fs) t f Ht).
+  intros f' Hin. pose proof (in_fs _ _ Hin) as H. rewrite Ht in H. inversion H; subst f'.
+  unfold queue in Hin. apply filter_In in Hin as [_ Hq]. cbn [fst snd] in Hq. congruence.
+Qed.
+
+Theorem C18_failing_template_untouched : forall t f,
+  lookup t fs = Some f -> compile (f_content f) = None ->
+  lookup (output_of t) (goht_generate compile now fl fs) = lookup (output_of t) fs.
+Proof.
+  intros t f Ht Hc. unfold goht_generate. apply (output_untouched compile now fl fs (queue fl fs) t f Ht).
+  intros f' Hin. pose proof (in_fs _ _ Hin) as H. rewrite Ht in H. inversion H; subst f'. exact Hc.
+Qed.
+
+(** no template source, and no file other than a *.goht.go, is created, changed or removed *)
+Theorem C18_only_outputs_change : forall p,
+  is_output p = false -> lookup p (goht_generate compile now fl fs) = lookup p fs.
+Proof. intros p Hp. unfold goht_generate. apply (frame_non_output compile now fl fs (queue fl fs) tmpl p Hp). Qed.
+
+Theorem C18_skipped_directories_untouched : forall p,
+  skipped fl p = true -> lookup p (goht_generate compile now fl fs) = lookup p fs.
+Proof. intros p Hp. unfold goht_generate. apply (frame_skipped compile now fl fs (queue fl fs) tmpl p Hp). Qed.
+
+Theorem C18_orphan_removed : forall p f,
+  orphan fl fs p = true -> In (p, f) fs -> lookup p (goht_generate compile now fl fs) = None.
+Proof. intros p f Ho Hin. unfold goht_generate. apply (orphan_removed compile now fl fs (queue fl fs) in_fs p f Ho Hin). Qed.
+
+Theorem C18_keep_keeps_orphans : forall p, fl_keep fl = true -> orphan fl fs p = false.
+Proof. exact (keep_keeps fl fs). Qed.
+
+(** any order in which the workers finish the queue gives the same tree *)
+Theorem C18_schedule_independent : forall order',
+  Permutation (queue fl fs) order' ->
+  forall p, lookup p (goht_generate compile now fl fs) = lookup p (generate_with compile now fl fs order').
+Proof. intros order' Hp p. unfold goht_generate. apply schedule_independent; [exact in_fs|exact Hp]. Qed.
+
+End C18.
+
+Print Assumptions C18_stale_template_written.
+Print Assumptions C18_up_to_date_untouched.
+Print Assumptions C18_failing_template_untouched.
+Print Assumptions C18_only_outputs_change.
+Print Assumptions C18_skipped_directories_untouched.
+Print Assumptions C18_orphan_removed.
+Print Assumptions C18_keep_keeps_orphans.
+Print Assumptions C18_schedule_independent.
+
+(** non-vacuity: a tree with a stale template, an up-to-date one, a failing one, an orphan, a vendor directory *)
 Example C18_nonvacuous :
-  c_defaultSkipDirs = [lit "vendor"; lit "node_modules"] /\ c_GeneratedFileExtension = c_GohtFileExtension ++ lit ".go".
-Proof. split; vm_compute; reflexivity. Qed.
+  let comp := fun c => if beqb c (lit "bad") then None else Some (lit "go:" ++ c) in
+  let fl := mkFlags false false c_defaultSkipDirs in
+  let fs := [(lit "a.goht", mkFile (lit "A") 10); (lit "a.goht.go", mkFile (lit "old") 5);
+             (lit "b.goht", mkFile (lit "B") 10); (lit "b.goht.go", mkFile (lit "keep") 20);
+             (lit "c.goht", mkFile (lit "bad") 10); (lit "c.goht.go", mkFile (lit "prev") 1);
+             (lit "gone.goht.go", mkFile (lit "orphan") 1);
+             (lit "vendor/v.goht", mkFile (lit "V") 10); (lit "sub/.x/h.goht.go", mkFile (lit "hidden orphan") 1);
+             (lit "main.go", mkFile (lit "package main") 3)] in
+  let r := goht_generate comp 99 fl fs in
+  NoDup (map fst fs) /\
+  lookup (lit "a.goht.go") r = Some (mkFile (lit "go:A") 99) /\
+  lookup (lit "b.goht.go") r = Some (mkFile (lit "keep") 20) /\
+  lookup (lit "c.goht.go") r = Some (mkFile (lit "prev") 1) /\
+  lookup (lit "gone.goht.go") r = None /\
+  lookup (lit "vendor/v.goht.go") r = None /\
+  lookup (lit "sub/.x/h.goht.go") r = Some (mkFile (lit "hidden orphan") 1) /\
+  lookup (lit "main.go") r = Some (mkFile (lit "package main") 3).
+Proof.
+  cbv zeta. split.
+  - repeat constructor; cbn; intuition discriminate.
+  - repeat split; vm_compute; reflexivity.
+Qed.
 Print Assumptions C18_nonvacuous.
